@@ -403,7 +403,7 @@ unsigned MemoryPersister::find_nearest_highest_seqnum (const unsigned requested,
 {
 	if (last)
 	{
-		for (unsigned startseqnum(requested); startseqnum <= last; ++startseqnum)
+		for (unsigned startseqnum(requested ? requested : 1); startseqnum <= last; ++startseqnum)
 		{
 			Store::const_iterator itr(_store.find(startseqnum));
 			if (itr != _store.end())
